@@ -13,4 +13,71 @@ example :
     (run sweepExt prog_wsConn_closeInFlight (sweepEnv [(.num "1", true), (.str "a", false)] [.num "7", .nil])).fx =
       some ([deliverFx (.num "1")] ++ [encCancel (.num "7"), encCancel .nil]) := by rfl
 
+theorem flatMap_fx1 (es : List (NId × Bool)) :
+    (es.map fun e => Val.cons (encKey e.1) (reqVal e)).flatMap sweepFx1 = (es.filter (·.2)).map fun e => deliverFx e.1 := by
+  induction es with
+  | nil => rfl
+  | cons e es ih =>
+    obtain ⟨k, room⟩ := e
+    rw [List.map_cons, List.flatMap_cons, ih]
+    cases room <;> simp [sweepFx1, reqVal, deliverFx, List.filter]
+
+theorem flatMap_fx2 (hs : List NId) :
+    (hs.map fun k => Val.cons (encKey k) (cancelFn k)).flatMap sweepFx2 = hs.map encCancel := by
+  induction hs with
+  | nil => rfl
+  | cons k hs ih =>
+    rw [List.map_cons, List.flatMap_cons, ih]
+    simp [sweepFx2, encCancel]
+
+/-- Translated `closeInFlight`, for every `inflight` table in every iteration order, every state of the mailboxes and
+    every `handling` table: it runs to completion using only *non-blocking* sends; every request whose mailbox has room
+    gets exactly the connection-error response carrying its own id (a full mailbox already holds that request's
+    answer and is left alone); every registered cancel function is invoked once; both tables end empty. -/
+theorem closeInFlight_translated (es : List (NId × Bool)) (hs : List NId) :
+    ∃ env', run sweepExt prog_wsConn_closeInFlight (sweepEnv es hs) = .ret .nil env' ∧
+      fxOf env' = ((es.filter (·.2)).map fun e => deliverFx e.1) ++ hs.map encCancel ∧
+      env'.get "c.inflight" = some .nil ∧ env'.get "c.handling" = some .nil := by
+  unfold prog_wsConn_closeInFlight sweepEnv
+  have g1 : ∀ (en : Env) (a b : Val), ((en.set "id" a).set "req" b).get "id" = some a := by
+    intro en a b; rw [Env.get_set_other _ _ _ _ (by decide)]; simp
+  mgsimps [Env.get, encInflight, sweepExt, kvOf, g1]
+  generalize hl1 : rangeLoop _ 0 (Val.ofList (List.map _ es)) _ = r1
+  obtain ⟨e1, h1, hf1, hP1⟩ := rangeLoop_fx_res hl1 (fun en => en.get "c.handling" = some (encHandling hs)) sweepFx1
+    (by simp [Env.get]) (by
+      intro en i x hx hP
+      obtain ⟨⟨k, room⟩, _, rfl⟩ := List.mem_map.mp hx
+      cases room
+      · refine ⟨(en.set "id" (encKey k)).set "req" (reqVal (k, false)), ?_, ?_, ?_⟩
+        · simp [reqVal, g1, Val.toList, kvOf, Val.ofList]
+        · rw [fxOf_set_other _ _ _ (by decide), fxOf_set_other _ _ _ (by decide)]; simp [sweepFx1, reqVal]
+        · show ((en.set "id" _).set "req" _).get "c.handling" = _
+          rw [Env.get_set_other _ _ _ _ (by decide), Env.get_set_other _ _ _ _ (by decide)]; exact hP
+      · refine ⟨logFx ((en.set "id" (encKey k)).set "req" (reqVal (k, true))) (deliverFxV (encKey k)), ?_, ?_, ?_⟩
+        · simp [reqVal, g1, Val.toList, kvOf, Val.ofList, deliverFxV, connErrRespV]
+        · rw [fxOf_logFx, fxOf_set_other _ _ _ (by decide), fxOf_set_other _ _ _ (by decide)]; simp [sweepFx1, reqVal]
+        · show (logFx ((en.set "id" _).set "req" _) _).get "c.handling" = _
+          rw [get_logFx_other _ _ _ (by decide), Env.get_set_other _ _ _ _ (by decide), Env.get_set_other _ _ _ _ (by decide)]
+          exact hP)
+  subst h1
+  have hget : (e1.set "c.inflight" Val.nil).get "c.handling" = some (encHandling hs) := by
+    rw [Env.get_set_other _ _ _ _ (by decide)]; exact hP1
+  simp only [hget]
+  generalize hl2 : rangeLoop _ 0 (encHandling hs) _ = r2
+  rw [encHandling] at hl2
+  obtain ⟨e2, h2, hf2, hP2⟩ := rangeLoop_fx_res hl2 (fun en => en.get "c.inflight" = some .nil) sweepFx2
+    (by simp) (by
+      intro en i x hx hP
+      obtain ⟨k, _, rfl⟩ := List.mem_map.mp hx
+      refine ⟨logFx (en.set "cancel" (cancelFn k)) (.cons (.str "cancel") (cancelFn k)), rfl, ?_, ?_⟩
+      · rw [fxOf_logFx, fxOf_set_other _ _ _ (by decide)]; simp [sweepFx2]
+      · show (logFx (en.set "cancel" _) _).get "c.inflight" = _
+        rw [get_logFx_other _ _ _ (by decide), Env.get_set_other _ _ _ _ (by decide)]; exact hP)
+  subst h2
+  refine ⟨e2.set "c.handling" .nil, rfl, ?_, ?_, ?_⟩
+  · rw [fxOf_set_other _ _ _ (by decide), hf2, fxOf_set_other _ _ _ (by decide), hf1, flatMap_fx1, flatMap_fx2]
+    simp [fxOf, Env.get, Val.toList]
+  · rw [Env.get_set_other _ _ _ _ (by decide)]; exact hP2
+  · simp
+
 end Jrpc.Trans
